@@ -7,15 +7,20 @@ import (
 	"net/http"
 	"strconv"
 	"strings"
+	"sync"
 	"time"
 )
 
 // H1Up is a scripted HTTP/1.1 upstream for the pooled ping-pong side of C02. The request header X-Beh says
 // what to do: ok:<micros> answer after the delay; slow:<millis> answer late (after the proxy has given up).
-// The reply echoes X-Token in a header and in the body. urecv/usend events are emitted around it.
+// errok:<micros> / errslow:<millis>: the first attempt is answered 503 with a body of its own, later attempts as ok/slow.
+// The reply carries its token in the header X-Up-Token (a header only the upstream sets: the proxy's own replies echo
+// the request headers) and in the body. urecv/usend events are emitted around it.
 type H1Up struct {
 	Addr string
 	srv  *http.Server
+	mu   sync.Mutex
+	seen map[string]int // arrivals per token (retries of the proxy)
 }
 
 // NewH1Up starts the upstream on a free loopback port.
@@ -24,12 +29,31 @@ func NewH1Up(emit Emit) *H1Up {
 	if err != nil {
 		panic(err)
 	}
-	u := &H1Up{Addr: ln.Addr().String()}
+	u := &H1Up{Addr: ln.Addr().String(), seen: map[string]int{}}
 	u.srv = &http.Server{Handler: http.HandlerFunc(func(w http.ResponseWriter, req *http.Request) {
 		io.Copy(io.Discard, req.Body)
 		tok := req.Header.Get("X-Token")
 		beh := req.Header.Get("X-Beh")
+		u.mu.Lock()
+		attempt := u.seen[tok]
+		u.seen[tok]++
+		if len(u.seen) > 100000 {
+			u.seen = map[string]int{}
+		}
+		u.mu.Unlock()
 		emit(map[string]interface{}{"ev": "urecv", "tok": tok, "uid": 0, "conn": req.RemoteAddr})
+		if strings.HasPrefix(beh, "err") { // errok:<micros> | errslow:<millis>: the first attempt gets 503 with a body
+			if attempt == 0 {
+				etok := ErrTok(tok, 0)
+				emit(map[string]interface{}{"ev": "usend", "tok": etok, "uid": 0, "kind": "err", "for": tok})
+				w.Header().Set("X-Up-Token", etok)
+				w.Header().Set("Content-Length", fmt.Sprint(len(etok)))
+				w.WriteHeader(503)
+				io.WriteString(w, etok)
+				return
+			}
+			beh = beh[3:]
+		}
 		if i := strings.Index(beh, ":"); i > 0 {
 			n, _ := strconv.Atoi(beh[i+1:])
 			switch beh[:i] {
@@ -40,7 +64,7 @@ func NewH1Up(emit Emit) *H1Up {
 			}
 		}
 		emit(map[string]interface{}{"ev": "usend", "tok": tok, "uid": 0, "kind": "ans"})
-		w.Header().Set("X-Token", tok)
+		w.Header().Set("X-Up-Token", tok)
 		w.Header().Set("Content-Length", fmt.Sprint(len(tok)))
 		w.WriteHeader(200)
 		io.WriteString(w, tok)
